@@ -823,7 +823,7 @@ def finish(ctx, level_text):
             families=st["families"], cells=st["cells"], tlc_cmds=st["tlc_cmds"],
             other_property_classes_seen=sorted({v["cls"] for v in other}),
             known_findings_hit=sorted(hits.keys()),
-            api_cover=st.get("api_cover"),
+            api_cover=st.get("api_cover"), unbatch_cover=st.get("unbatch_cover"),
             design_findings=st["design_findings"],
             flaky_crashes=st.get("flaky_crashes", []),
         ),
@@ -841,6 +841,7 @@ def finish(ctx, level_text):
 def check_generic(ctx):
     plan = PLANS[ctx.pid]
     build_executor(ctx)
+    gens = {}
     quick = ctx.tier == "quick"
     for fam, cells in plan:
         pc = PROP_CFG.get(ctx.pid, (dict(probes=6), dict(probes=24)))[0 if quick else 1]
@@ -887,7 +888,33 @@ def check_generic(ctx):
         per_seq = FAMILIES[fam]["tiers"][ctx.tier]["MaxHist"] + 7
         keep = 1000 if gen["nseq"] * len(cs) * per_seq <= budget else max(1, int(1000 * budget / (gen["nseq"] * len(cs) * per_seq)))
         replay_family(ctx, gen, cs, keep, pc.get("probes", 0), extra_cfg={k: v for k, v in pc.items() if k != "probes"})
+        gens[fam] = gen
+    if ctx.pid == "C06":
+        unbatch_product(ctx, gens)
     return finish(ctx, "bounded: see families/cells")
+
+
+def unbatch_product(ctx, gens):
+    """C06, differential: every history is executed twice - with the batch operations as they are, and with every
+    batch operation replaced by the single-entity operations it abbreviates (harness/arkx/unbatch.go) - and the
+    two logs are compared by ArkProd (mode C06: same world by creation ordinal, same query results as bags, same
+    callbacks, same panics), including whatever later operations reveal of the state the batch left behind."""
+    quick = ctx.tier == "quick"
+    variants = variants_for(ctx, "C06")
+    sources = []
+    g = gens.get("batch")
+    if g:
+        keep = max(1, min(1000, int(1000 * (2000 if quick else 40000) / max(1, g["nseq"]))))
+        for cell in ["typed1", "exch8"]:
+            sources.append(("seq", g["seqs"], keep, dict(CELLS[cell], comps=FAMILIES["batch"]["exec"]["comps"], probes=2, seed=ctx.seed)))
+    counts = dict(wide=40, rel2=40, rich=40) if quick else dict(wide=800, rel2=800, rich=800)
+    sources += driven_sources(ctx, ctx.binpath, ["wide", "rel2", "rich"], counts, "typed1", {})
+    sources += driven_sources(ctx, ctx.binpath, ["wide", "rich"], counts, "exch8", {})
+    cover = {}
+    product_check(ctx, "C06", variants, sources, "c06-unbatch", cover=cover)
+    ctx.stats["unbatch_cover"] = {k: v for k, v in cover.items() if k.startswith("unbatch")}
+    if sum(v for k, v in cover.items() if k.startswith("unbatched.")) == 0:
+        raise Inconclusive("no batch operation was executed entity by entity")
 
 
 def run_tlc_model(ctx, module, mcdefs, cfgtext, label, workers=8, timeout=900):
@@ -951,6 +978,9 @@ def variants_for(ctx, pid):
         return [("typed", b, dict(CELLS["typed11"]), {}), ("unsafe", b, dict(CELLS["unsafe1"]), {}),
                 ("typedidx", b, dict(CELLS["typed1"], perm=True), {}), ("exchange", b, dict(CELLS["exch8"]), {}),
                 ("mapt", b, dict(CELLS["mapt1"]), {})]
+    if pid == "C06":
+        b = build_executor(ctx)
+        return [("batch", b, {}, {}), ("single", b, dict(unbatch=True), {})]
     if pid == "C20":
         return [(n, build_executor(ctx, t, "arkexec_" + n), {}, {}) for n, t in
                 [("plain", "verif"), ("tiny", "verif,ark_tiny"), ("debug", "verif,ark_debug"), ("tinydebug", "verif,ark_tiny,ark_debug")]]
@@ -1150,7 +1180,7 @@ def driven_sources(ctx, binp, names, count, cell, extra):
         cfg = dict(CELLS[cell], comps=dr["comps"], probes=2, seed=ctx.seed * 31 + k, reuse=True, maxent=dr["maxent"])
         cfg.update(dr.get("extra", {}))
         cfg.update(extra)
-        lp = os.path.join(d, "gen-%s.ndjson" % name)
+        lp = os.path.join(d, "gen-%s-%s.ndjson" % (name, cell))
         cnt = count[name] if isinstance(count, dict) else count
         p, dt = run([binp, "-drive", str(cnt), "-len", str(dr[ctx.tier]["len"]), "-out", lp, "-cfg", json.dumps(cfg)], 900)
         if p.returncode != 0:
